@@ -1,0 +1,84 @@
+//go:build verif
+
+// Contracts for the deductive verifier in /verif (comment-only file; compiled only with -tags verif).
+package socks5
+
+// ---------------------------------------------------------------------------------------------
+// C09: SOCKS5 probe
+//
+// every socket read / write is preceded by a deadline of now + the configured data timeout, and is not attempted
+// when the deadline could not be set
+//@ func (*socksConn).Read
+//@   props C09
+//@   observe time.Now, (time.Time).Add, SetReadDeadline, Read
+//@   entry row nodl: [call time.Now() as (now) ; call Add(now, c.timeout) as (dl) ; call SetReadDeadline(c.conn, dl) as (e)] when e != nil && ret1 == e && ret0 == 0 -> exit
+//@   entry row read: [call time.Now() as (now) ; call Add(now, c.timeout) as (dl) ; call SetReadDeadline(c.conn, dl) as (e) ; call Read(c.conn, p) as (n, e2)] when e == nil && ret0 == n && ret1 == e2 -> exit
+//@ func (*socksConn).Write
+//@   props C09
+//@   observe time.Now, (time.Time).Add, SetWriteDeadline, Write
+//@   entry row nodl:  [call time.Now() as (now) ; call Add(now, c.timeout) as (dl) ; call SetWriteDeadline(c.conn, dl) as (e)] when e != nil && ret1 == e && ret0 == 0 -> exit
+//@   entry row write: [call time.Now() as (now) ; call Add(now, c.timeout) as (dl) ; call SetWriteDeadline(c.conn, dl) as (e) ; call Write(c.conn, p) as (n, e2)] when e == nil && ret0 == n && ret1 == e2 -> exit
+
+// greeting: one Write of VER, NMETHODS, METHODS...
+//@ func NewMethodRequest
+//@   props C09
+//@   modifies nothing
+//@   ensures ret != nil && ret.Ver == version && ret.NMethods == len(methods) % 256 && ret.Methods == methods
+//@ func (*MethodRequest).WriteTo
+//@   props C09
+//@   observe Write
+//@   requires r.NMethods == len(r.Methods)
+//@   modifies nothing
+//@   entry row one: [call Write(w, bind_b) as (n, e)] when len(b) == 2 + len(r.Methods) && b[0] == r.Ver && b[1] == r.NMethods
+//@                     && (forall i int :: 0 <= i && i < len(r.Methods) ==> b[2 + i] == r.Methods[i]) && ret0 == n && ret1 == e -> exit
+
+// reply: exactly Len() = 2 bytes are read, completely (binary.Read = io.ReadFull), into (Ver, Method)
+//@ extern encoding/binary.Read
+//@   params rd, order, data
+//@   modifies asptr(data, MethodReply).Ver, asptr(data, MethodReply).Method
+//@ func (*MethodReply).ReadFrom
+//@   props C09
+//@   observe binary.Read
+//@   modifies r.Ver, r.Method
+//@   entry row full: [call binary.Read(in, _, bind_x) as (e)] when isptr(x, MethodReply) && asptr(x, MethodReply) == r && ret0 == 2 && ret1 == e -> exit
+
+// watchdog: cancellation closes the connection (so a blocked read/write returns at once); otherwise it ends with the probe
+//@ func (*Scanner).Scan$1
+//@   props C09 C12
+//@   observe Close
+//@   entry row cancel: [ctxdone ; call Close(conn)] -> exit
+//@   entry row done:   [recv done as (_, _)] -> exit
+
+// the probe: a record iff dial, linger, greeting write and reply read all succeeded and the reply is (5, 0);
+// the record names the target; an error never comes with a record; the greeting is VER 5, one method, NO AUTH;
+// all I/O goes through the deadline-setting wrapper around THIS connection with the configured data timeout;
+// the connection is closed and the watchdog released on every path.
+//@ extern (*net.Dialer).DialContext
+//@   params d, ctx, network, address
+//@   ensures ret1 == nil ==> ret0 != nil
+//@   ensures ret1 == nil && network == "tcp" ==> isptr(ret0, net.TCPConn)
+//@ func (*Scanner).Scan
+//@   props C09 C08
+//@   observe fmt.Sprintf, DialContext, SetLinger, NewMethodRequest, WriteTo, ReadFrom, Close, String
+//@   entry row dialfail: [call fmt.Sprintf("%s:%d", bind_a) as (addr) ; call DialContext(s.dialer, ctx, "tcp", addr) as (conn, e)]
+//@                          when len(a) == 2 && astype(a[0], net.IP) == r.DstIP && astype(a[1], uint16) == r.DstPort && e != nil && ret0 == nil && ret1 == e -> exit
+//@   entry row lingerfail: [call fmt.Sprintf("%s:%d", bind_a) as (addr) ; call DialContext(s.dialer, ctx, "tcp", addr) as (conn, e) ; call SetLinger(_, 1) as (le) ; call Close(conn)]
+//@                          when e == nil && le != nil && ret0 == nil && ret1 == le -> exit
+//@   entry row writefail: [call fmt.Sprintf("%s:%d", bind_a) as (addr) ; call DialContext(s.dialer, ctx, "tcp", addr) as (conn, e) ; call SetLinger(_, 1) as (le) ;
+//@                         go (*Scanner).Scan$1{conn: bind_wc, done: bind_wd} ; call NewMethodRequest(5, bind_ms) as (req) ; call WriteTo(req, bind_sc) as (_, we) ; close bind_d ; call Close(conn)]
+//@                          when e == nil && le == nil && wc == conn && wd == d && len(ms) == 1 && ms[0] == 0 && isptr(sc, socksConn) && asptr(sc, socksConn).conn == conn && asptr(sc, socksConn).timeout == s.dataTimeout
+//@                            && we != nil && ret0 == nil && ret1 == we -> exit
+//@   entry row readfail: [call fmt.Sprintf("%s:%d", bind_a) as (addr) ; call DialContext(s.dialer, ctx, "tcp", addr) as (conn, e) ; call SetLinger(_, 1) as (le) ;
+//@                         go (*Scanner).Scan$1{conn: bind_wc, done: bind_wd} ; call NewMethodRequest(5, bind_ms) as (req) ; call WriteTo(req, bind_sc) as (_, we) ;
+//@                         call ReadFrom(bind_rp, bind_sc2) as (_, re) ; close bind_d ; call Close(conn)]
+//@                          when e == nil && le == nil && we == nil && sc2 == sc && re != nil && ret0 == nil && ret1 == re -> exit
+//@   entry row other:    [call fmt.Sprintf("%s:%d", bind_a) as (addr) ; call DialContext(s.dialer, ctx, "tcp", addr) as (conn, e) ; call SetLinger(_, 1) as (le) ;
+//@                         go (*Scanner).Scan$1{conn: bind_wc, done: bind_wd} ; call NewMethodRequest(5, bind_ms) as (req) ; call WriteTo(req, bind_sc) as (_, we) ;
+//@                         call ReadFrom(bind_rp, bind_sc2) as (_, re) ; close bind_d ; call Close(conn)]
+//@                          when e == nil && le == nil && we == nil && sc2 == sc && re == nil && !(rp.Ver == 5 && rp.Method == 0) && ret0 == nil && ret1 == nil -> exit
+//@   entry row proxy:    [call fmt.Sprintf("%s:%d", bind_a) as (addr) ; call DialContext(s.dialer, ctx, "tcp", addr) as (conn, e) ; call SetLinger(_, 1) as (le) ;
+//@                         go (*Scanner).Scan$1{conn: bind_wc, done: bind_wd} ; call NewMethodRequest(5, bind_ms) as (req) ; call WriteTo(req, bind_sc) as (_, we) ;
+//@                         call ReadFrom(bind_rp, bind_sc2) as (_, re) ; call String(r.DstIP) as (ipstr) ; close bind_d ; call Close(conn)]
+//@                          when e == nil && le == nil && we == nil && sc2 == sc && isptr(sc2, socksConn) && asptr(sc2, socksConn).conn == conn && re == nil && rp.Ver == 5 && rp.Method == 0 && ret1 == nil
+//@                            && isptr(ret0, ScanResult) && asptr(ret0, ScanResult).IP == ipstr && asptr(ret0, ScanResult).Port == r.DstPort
+//@                            && asptr(ret0, ScanResult).Version == 5 && asptr(ret0, ScanResult).ScanType == "socks" -> exit
